@@ -53,6 +53,8 @@ partial def exprLeafCount : Expr → Nat
   | .comb _ l r => exprLeafCount l + exprLeafCount r
   | .chain _ a b es => exprLeafCount a + exprLeafCount b + (es.map exprLeafCount).foldl (· + ·) 0
   | .shared _ e _ => exprLeafCount e
+  | .multi2 _ a _ b _ => exprLeafCount a + exprLeafCount b
+  | .multi3 _ a _ b _ c _ => exprLeafCount a + exprLeafCount b + exprLeafCount c
 
 /-- known-finding class (DESIGN.md L10): the shared property tree has at least three values of
     which at least two become private — the first removal may collapse the tree's root by
